@@ -177,6 +177,7 @@ Record state := mkState {
   st_next : nat;            (* next ordinal *)
   st_file : string;         (* the file's id attribute *)
   st_seen : list string;    (* every id ever stored in this file, newest first *)
+  st_draws : list (list Z * nat);   (* ghost: every createId call so far on behalf of this file, as (seed, index) *)
   st_proc : proc;           (* the process that has the file open *)
   st_rw : bool              (* open ReadWrite (or Overwrite) / ReadOnly *)
 }.
@@ -272,28 +273,29 @@ Section IdModel.
   Definition draw (st : state) : string * state :=
     let p := st_proc st in
     (supply (p_seed p) (p_next p),
-     mkState (st_ents st) (st_next st) (st_file st) (st_seen st) (mkProc (p_seed p) (S (p_next p))) (st_rw st)).
+     mkState (st_ents st) (st_next st) (st_file st) (st_seen st) ((p_seed p, p_next p) :: st_draws st)
+             (mkProc (p_seed p) (S (p_next p))) (st_rw st)).
 
   (** File::open(Overwrite) by a fresh process: createHeader draws the file id *)
   Definition new_file (t e : Z) : state :=
     let p := new_proc t e in
     let id := supply (p_seed p) 0 in
-    mkState [] 0 id [id] (mkProc (p_seed p) 1) true.
+    mkState [] 0 id [id] [(p_seed p, 0%nat)] (mkProc (p_seed p) 1) true.
 
   Definition add_ent (st : state) (k : kind) (parent : option nat) (name id : string) : state :=
     mkState (st_ents st ++ [mkEnt (st_next st) k parent name id id true]) (S (st_next st)) (st_file st)
-            (id :: st_seen st) (st_proc st) (st_rw st).
+            (id :: st_seen st) (st_draws st) (st_proc st) (st_rw st).
 
   Definition with_ents (st : state) (es : list entity) : state :=
-    mkState es (st_next st) (st_file st) (st_seen st) (st_proc st) (st_rw st).
+    mkState es (st_next st) (st_file st) (st_seen st) (st_draws st) (st_proc st) (st_rw st).
   Definition with_seen (st : state) (id : string) : state :=
-    mkState (st_ents st) (st_next st) (st_file st) (id :: st_seen st) (st_proc st) (st_rw st).
+    mkState (st_ents st) (st_next st) (st_file st) (id :: st_seen st) (st_draws st) (st_proc st) (st_rw st).
   Definition with_proc (st : state) (p : proc) : state :=
-    mkState (st_ents st) (st_next st) (st_file st) (st_seen st) p (st_rw st).
+    mkState (st_ents st) (st_next st) (st_file st) (st_seen st) (st_draws st) p (st_rw st).
   Definition with_rw (st : state) (rw : bool) : state :=
-    mkState (st_ents st) (st_next st) (st_file st) (st_seen st) (st_proc st) rw.
+    mkState (st_ents st) (st_next st) (st_file st) (st_seen st) (st_draws st) (st_proc st) rw.
   Definition with_file (st : state) (id : string) : state :=
-    mkState (st_ents st) (st_next st) id (id :: st_seen st) (st_proc st) (st_rw st).
+    mkState (st_ents st) (st_next st) id (id :: st_seen st) (st_draws st) (st_proc st) (st_rw st).
 
   (** is the request one the scripts may make at all (parent alive and of a fitting kind, referenced array
       alive and in the same block)?  Otherwise both drivers refuse it before any library call. *)
